@@ -47,8 +47,8 @@ Theorem colors_le_declared D fg bg v : attrspec_new fg bg D = ROk v -> attr_colo
 Proof.
   unfold attrspec_new. destruct (valid_depth D); cbn [negb]; [|discriminate].
   destruct (set_foreground (init_value D) fg) as [v1|]; cbn [rbind]; [|discriminate].
-  destruct (set_background v1 bg) as [v2|]; cbn [rbind]; [|discriminate].
-  destruct (D <? attr_colors v2) eqn:E; [discriminate|]. intros H; injection H as <-. split; [lia|reflexivity].
+  destruct (set_background v1 bg) as [v2|]; cbn [rbind]; [|discriminate]. cbv zeta.
+  destruct (D <? attr_colors (drop_marker v2)) eqn:E; [discriminate|]. intros H; injection H as <-. split; [lia|reflexivity].
 Qed.
 
 (* no smaller depth expresses the specification, whatever strings are used *)
@@ -99,7 +99,8 @@ Theorem settings_preserved D fg bg v s :
 Proof.
   intros W Wb E.
   destruct (construct_inv D fg bg v W Wb E) as [_ [_ [_ [fcol [ss [k [bn [EF [_ [EV [Hfn [Hbn _]]]]]]]]]]]].
-  pose proof (settings_pack (mode_of D) (dflt fcol) bn ss k (part_kind (mode_of D) bg) Hfn Hbn) as SP.
+  pose proof (settings_pack (out_mode (mode_of D) k (part_kind (mode_of D) bg)) (dflt fcol) bn ss k
+                            (part_kind (mode_of D) bg) Hfn Hbn) as SP.
   rewrite <- EV in SP. unfold settings_of in SP.
   injection SP as S1 S2 S3 S4 S5 S6.
   rewrite <- (orb_false_r (has_setting s fg)).
@@ -147,41 +148,3 @@ Proof.
   now rewrite (fg_abs_perm _ _ _ P _ _ _ _ EF).
 Qed.
 
-(* ------------------------------------------------------------------ the reported depth expresses the specification *)
-Lemma colors_spec_mode md k bk fn bn :
-  side_ok md k fn -> side_ok md bk bn ->
-  (md = MTrue -> colors_spec md k bk = TRUE_DEPTH) ->
-  valid_depth (colors_spec md k bk) = true /\ mode_of (colors_spec md k bk) = md.
-Proof.
-  intros S1 S2 T.
-  assert (K1 : is_high k || is_true k = true -> k = high_kind md)
-    by (destruct k; cbn in S1 |- *; try discriminate; intros; apply S1).
-  assert (K2 : is_high bk || is_true bk = true -> bk = high_kind md)
-    by (destruct bk; cbn in S2 |- *; try discriminate; intros; apply S2).
-  destruct md.
-  - split; reflexivity.
-  - rewrite (T eq_refl). split; reflexivity.
-  - clear T S1 S2. destruct k, bk; cbn in K1, K2 |- *; try (split; reflexivity);
-      first [specialize (K1 eq_refl); discriminate | specialize (K2 eq_refl); discriminate].
-Qed.
-
-Theorem colors_expresses_when D fg bg v :
-  Forall (wf_part (mode_of D)) fg -> wf_desc (mode_of D) bg -> attrspec_new fg bg D = ROk v ->
-  (D = TRUE_DEPTH -> attr_colors v = TRUE_DEPTH) ->
-  exists f b, foreground v = Ok f /\ background v = Ok b /\
-    attrspec_new (parts_of_foreground f) b (attr_colors v) = ROk v.
-Proof.
-  intros W Wb E T.
-  destruct (roundtrip D fg bg v W Wb E) as [f [b [Ef [Eb [Wf [Wb' E']]]]]].
-  exists f, b. split; [exact Ef|]. split; [exact Eb|].
-  destruct (construct_inv D fg bg v W Wb E) as [_ [_ [_ [fcol [ss [k [bn [_ [_ [EV [Hfn [Hbn [S1 S2]]]]]]]]]]]]].
-  destruct (construct_inv D _ b v Wf Wb' E') as [_ [_ [EB _]]].
-  set (md := mode_of D) in *.
-  assert (EC : attr_colors v = colors_spec md k (part_kind md bg)) by (subst v; now apply colors_pack).
-  destruct (colors_spec_mode md k (part_kind md bg) _ _ S1 S2) as [V M].
-  { intros Hmd. rewrite <- EC. apply T. unfold md, mode_of in Hmd.
-    destruct (D =? 88); [discriminate|]. destruct (D =? TRUE_DEPTH) eqn:X; [lia|discriminate]. }
-  rewrite <- EC in V, M.
-  rewrite attrspec_new_build by (rewrite M; exact Wf). rewrite V, M. cbn [negb]. rewrite EB. cbn [rbind].
-  now rewrite Z.ltb_irrefl.
-Qed.
